@@ -25,6 +25,16 @@ add("C08", "Hypothesis-generated index maps, permutation sequences, renamings an
     "2-12 step histories on a freshly reset registry with identity invariants after every step.",
     "Trusted: rebuild() reconstruction, F_p evaluator; registry reset drops the Singleton instance (harness plumbing, not a source hook).")
 
+add("C09", "Hypothesis-generated delta chains over mixed space/spin indices; differential value oracle on a spin- and space-structured F_p model",
+    "Generated-input search: products of tensors/operators with 1-4 constructed delta chains (occ/virt/general x alpha/beta/no spin, mixed in one term), "
+    "Einstein and explicit targets; value compared exactly on models where general = occ U virt and no-spin = alpha U beta, so replacing an index by a less "
+    "informative one changes the value; free indices must survive, no new index may appear.",
+    "Trusted: F_p evaluator with spin structure; operators enter as position-tagged one-index tensors.")
+add("C20", "Hypothesis-generated products of an orthogonal two-index tensor; differential value oracle with an exactly orthogonal matrix over F_p (Cayley transform)",
+    "Generated-input search: 2-6 U factors incl. powers and constructed resolvable / non-resolvable pairs, remainder tensors, Einstein/explicit targets, evaluate_deltas on/off; "
+    "value compared exactly on F_p models with U U^T = 1. Out-of-domain class (pairs sharing both indices) and the known finding F8 are excluded by construction and counted.",
+    "Trusted: Cayley-transform orthogonal matrices (asserted U U^T = 1 at generation), F_p evaluator.")
+
 NOT_YET = "check not built yet in this round (planned, see DESIGN.md)"
 
 def main():
